@@ -45,7 +45,10 @@ GEN = ("rapid draws a Case = generated topology (1-4 pools over 2-4 node subnets
        "resync, reload and the informer's cache update - interleaved by the cooperative scheduler at every lister/IPAM/API/provider "
        "call, with uniform, bursty, nested and lock-convoy schedule shapes); inside an episode a controller may CREATE the next incarnation "
        "of a pod and have it scheduled (newsched), an administrator may release an entry the list API shows as releasable, and event "
-       "delivery / unbind may pick their target when they run; half of the histories draw operation and phrase kinds flat (weights mean "
+       "delivery / unbind may pick their target when they run; the scheduler can switch tasks after a FloatingIP write or a pod GET has "
+       "been answered as well as before it is sent; a restart may come up with a pod cache that is as stale as - or a few updates staler "
+       "than - its predecessor's (leader change served from a lagging watch cache); a quarter of the index-named apps are wide (members "
+       "1, 10 and 11: one key is a string prefix of another); half of the histories draw operation and phrase kinds flat (weights mean "
        "what they say), half with rapid's small-index bias (creation-heavy); lister lag in 1/3 of the cases; multi-IP "
        "(request_ip_range) workloads in 1/4. ")
 
